@@ -1,9 +1,21 @@
-"""C03 — compiled fast validators decide exactly like the Python validators (see validate_common.py)."""
+"""C03 — compiled fast validators decide exactly like the Python validators (see validate_common.py; This / self and
+Module: more_types.py, spec/MoreTypes.tla)."""
+import json
+
 from . import validate_common as vc
+from . import more_types as mt
 
 
 def run(rep, tier, seed):
     vc.run_for(rep, tier, seed, "C03")
+    rule = rep.rule
+    mt.run_for(rep, tier, seed, "C03")
+    rep.rule = rule + "; This / self (self_type validator) and Module (coerce): compiled path against Python path on every value of MoreTypesMC"
 
 
-replay = vc.replay
+def replay(rep, path):
+    obj = json.load(open(path))
+    rec = (obj.get("case") or {}).get("record") or {}
+    if isinstance(rec.get("tok"), dict):
+        return mt.replay_record(rec)
+    return vc.replay(rep, path)
